@@ -16,6 +16,8 @@ class Prop(BaseProp):
     theorems = ["C09_privkey_accepts_iff", "C09_privkey_int_accepts_iff", "C09_sec_roundtrip", "C09_wif_first_char",
                 "C09_from_wif_wif", "C09_laws_satisfiable"]
     exec_modules = ["Exec.C09"]
+    extra_modules = {"C09Src": ["C09_source_wif_is_model", "C09_source_wif_roundtrip", "C09_source_translated"]}
+    pysem_funcs = ["keys.PrivateKey.__bytes__", "keys.PrivateKey.wif"]
     exec_import = "From BHW Require Import Lib.Base Exec.Common Exec.C09.\nFrom Coq Require Import String.\nOpen Scope string_scope."
     shard = 6
     rule = ("PrivB/PrivI: scalars 1, 2, n-1, powers of two, leading-zero, random (accepted) and 0, n, n+1, 2^256-1, negative, byte strings of length 0..40 "
